@@ -67,6 +67,73 @@ def make_e_history(params, part, nparts):
 
 
 # ---------------------------------------------------------------------------
+# Partial warm-up: only one or two chosen lookups happen before the mutation
+# (a cache/subscription edge that "query everything" would mask)
+# ---------------------------------------------------------------------------
+
+PW_REGS = [('register', 0, (1, 2), 0, '', 'm2'), ('register', 0, (1, 1), 0, '', 'm'), ('register', 0, (2, 2), 0, '', 'mm'),
+           ('register', 1, (1, 2), 0, '', 'b2'), ('subscribe', 0, (1, 2), 0, '', 's'), ('register', 0, (2, 1), 0, '', 'm21'),
+           ('register', 0, (0, 3), 0, '', 'm03'), ('subscribe', 0, (2, 2), None, '', 'h')]
+PW_POOL = [1, 4, 6, 3]   # R1, implementedBy(K0), providedBy(K0()+R2), R3
+PW_MUT = [('classImplements', 'K0', 2), ('classImplementsOnly', 'K0', 2), ('classImplementsOnly', 'K1', 0),
+          ('directlyProvides', 2, (1,)), ('directlyProvides', 2, ()), ('noLongerProvides', 2, 2),
+          ('ibases', ('R', 3), (1,)), ('ibases', ('R', 3), (2, 1)), ('ibases', ('R', 1), ()), ('ibases', ('R', 2), (1,)),
+          ('register', 0, (1, 2), 0, '', 'new'), ('unregister', 0, (1, 2), 0, '', None), ('setbases', 0, ())]
+PW_ENTRY = ['lookup', 'lookupAll', 'subscriptions']
+
+
+def _pw_query(u, ri, entry, combo):
+    pool = u.lookup_pool()
+    specs = [pool[c] for c in combo]
+    reg = u.regs[ri]
+    if entry == 'lookup':
+        return M._tag(reg.lookup(specs, u.P[0], ''))
+    if entry == 'lookupAll':
+        return sorted((n, M._tag(v)) for n, v in reg.lookupAll(specs, u.P[0]))
+    return ([M._tag(v) for v in reg.subscriptions(specs, u.P[0])],
+            [M._tag(v) for v in reg.subscriptions(specs, None)])
+
+
+def run_partial(flavour, regop, w1, w2, mut):
+    warm = M.RegUniverse(flavour=flavour, nregs=2)
+    model = M.Model(2)
+    RP.apply_op(warm, model, regop)
+    if w1 is not None:
+        _pw_query(warm, 0, 'lookup', w1)
+    _pw_query(warm, 0, w2[0], w2[1])
+    RP.apply_op(warm, model, mut)
+    got = _pw_query(warm, 0, w2[0], w2[1])
+    cold = M.RegUniverse(flavour=flavour, nregs=2)
+    cm = M.Model(2)
+    RP.apply_op(cold, cm, regop)
+    RP.apply_op(cold, cm, mut)
+    exp = _pw_query(cold, 0, w2[0], w2[1])
+    if got != exp:
+        names = warm.lookup_names()
+        raise Violation('%s: [%s]; lookup %s; %s %s; then %s; same %s again gives %r, a registry without earlier lookups gives %r' % (
+            flavour, RP.fmt([regop]), None if w1 is None else [names[c] for c in w1], w2[0], [names[c] for c in w2[1]],
+            RP.fmt([mut]), w2[0], got, exp), signature='C05:stale:%s:after-%s' % (w2[0], mut[0]))
+
+
+def make_e_partial(params, part, nparts):
+    flavour = params['flavour']
+    NP = len(PW_POOL)
+    NW1 = params.get('w1', NP)
+
+    def h(r: int, a: int, e: int, b1: int, b2: int, m: int):
+        c_r = pick(r, len(PW_REGS))
+        c_m = pick(m, len(PW_MUT))
+        assume((c_r * len(PW_MUT) + c_m) % nparts == part)
+        c_a = pick(a, NW1 + 1)
+        w1 = None if c_a == NW1 else (PW_POOL[c_a],)
+        w2 = (PW_ENTRY[pick(e, 3)], (PW_POOL[pick(b1, NP)], PW_POOL[pick(b2, NP)]))
+        key = (c_r, c_a, w2, c_m)
+        reached(key, dict(flavour=flavour, registration=RP.fmt([PW_REGS[c_r]]), first=w1, second=w2, mutation=RP.fmt([PW_MUT[c_m]])))
+        native(run_partial, flavour, PW_REGS[c_r], w1, w2, PW_MUT[c_m])
+    return h
+
+
+# ---------------------------------------------------------------------------
 # S tier (inductive): the real LookupBaseFallback cache layer, one step from an
 # arbitrary cache state satisfying Inv
 # ---------------------------------------------------------------------------
@@ -203,6 +270,17 @@ HARNESSES = [
             oracle='a fresh universe that replays only the mutations and performs no earlier lookups'),
     Harness('e_history_verifying', make_e_history, kind='E', impls=('py', 'c'), tiers=_tiers('verifying'), encoded=_ENC,
             bounds='as e_history_adapter with VerifyingAdapterRegistry (generation checking)', oracle='as e_history_adapter'),
+    Harness('e_partial_adapter', make_e_partial, kind='E', impls=('py', 'c'),
+            tiers=dict(quick=dict(budget_s=100, parts=8, impls=('c',), params=dict(flavour='adapter', w1=3)),
+                       thorough=dict(budget_s=300, parts=8, params=dict(flavour='adapter'))), encoded=_ENC,
+            bounds='one multi-adapter registration/subscription (8) x optional single lookup of one spec (quick: 3 of 4 specs, C build; thorough: all, both builds) x one arity-2 '
+                   'lookup/lookupAll/subscriptions (3 x 16 keys) x one mutation (13: declarations, interface __bases__, registration, '
+                   'registry __bases__) x the same arity-2 call again; only the chosen lookups happen before the mutation',
+            oracle='a fresh universe with the registration and the mutation and no earlier lookups'),
+    Harness('e_partial_verifying', make_e_partial, kind='E', impls=('py', 'c'),
+            tiers=dict(quick=dict(budget_s=100, parts=8, impls=('py',), params=dict(flavour='verifying', w1=3)),
+                       thorough=dict(budget_s=300, parts=8, params=dict(flavour='verifying'))), encoded=_ENC,
+            bounds='as e_partial_adapter for VerifyingAdapterRegistry', oracle='as e_partial_adapter'),
     Harness('s_cache_step', make_s_cache_step, kind='S', impls=('py',),
             tiers=dict(quick=dict(budget_s=90, parts=10, ppt=30, params=dict(keys=2)),
                        thorough=dict(budget_s=600, parts=10, ppt=60, params=dict(keys=2))),
